@@ -164,6 +164,7 @@ type Frame struct {
 	top     bool
 	loops   map[*ssa.BasicBlock]*loopInfo
 	callOrd map[string]int
+	siteOrd map[ssa.Instruction]int // call site -> ordinal among the calls of the same function, in source order
 	matched map[*AssertSpec]bool // at-call clauses that found their call
 	results []Term
 	retPCs  []string
